@@ -151,6 +151,6 @@ PLANS = {
                 "must be Ok; distinct_nontrivial = number of cells whose three records agree (each cell is a distinct entry x program)",
         "required_premises": ["C18.R_same.cells_compared", "C18.R_alive.ping_after_spawn"],
         "assumptions": ["programs are single-client by construction (they must not depend on timing)", "a 20 s watchdog per cell yields inconclusive, never a violation"],
-        "deadline": {"quick": 600, "thorough": 3000},
+        "deadline": {"quick": 1200, "thorough": 3600},
     },
 }
